@@ -31,7 +31,7 @@ from vf.ref import chemkin_inp as CK
 from vf.ref import units as U
 
 ID = 'C06'
-N = {'quick': 2500, 'thorough': 100000}
+N = {'quick': 2200, 'thorough': 100000}
 NT_RULE = ('case = random well-formed mechanism (1-3 CatSites, 2-30 Nasa species G/S/bulk, 1-40 '
            'ChemkinReactions of kinds gas/ads/ads_plain/ads_diss/des/surf/diff, with/without TS, '
            'stoichiometry 1-3) + 1-8 condition runs + writer options (act/ads method, unit, T, P, formats, '
@@ -40,7 +40,7 @@ NT_RULE = ('case = random well-formed mechanism (1-3 CatSites, 2-30 Nasa species
            'distinct = distinct canonical JSON of the case')
 REQUIRED_ORACLES = ['K1', 'K2', 'K3', 'K4']      # INV (online invariants at probes) is best-effort
 ACT = MG.ACT_METHODS
-REQUIRED_CLASSES = (['rx:' + k for k in ('gas', 'ads', 'ads_plain', 'ads_diss', 'des', 'surf', 'diff')]
+REQUIRED_CLASSES = (['rx:' + k for k in ('gas', 'ads', 'ads_plain', 'ads_diss', 'des', 'surf', 'diff', 'er')]
                     + ['ts:yes', 'ts:no', 'nu:1', 'nu:2', 'nu:3', 'sites:1', 'sites:2', 'sites:3',
                        'profile:mixed', 'profile:gas', 'profile:surface', 'profile:tiny',
                        'runs:1', 'runs:8', 'dest:text', 'dest:disk', 'call:defaults',
@@ -50,7 +50,13 @@ REQUIRED_CLASSES = (['rx:' + k for k in ('gas', 'ads', 'ads_plain', 'ads_diss', 
                        'hist:poly:assign', 'hist:site_density:A_depends', 'hist:append_to_caller_list',
                        'reactions_arg:list', 'reactions_arg:tuple', 'reactions_arg:generator',
                        'x:all_zero_species', 'x:all_zero_single_run',
-                       'A:stick', 'A:gas', 'A:surf', 'A:ts_entropy', 'A:multi_site',
+                       'A:stick', 'A:gas', 'A:surf', 'A:ts_entropy', 'A:multi_site', 'A:no_ts', 'A:ts_G_method',
+                       'n_surf:1', 'n_surf:2', 'n_surf:>=3',
+                       'carry:er_reactant', 'carry:ads_reactant', 'carry:product', 'carry:n_sites',
+                       'carry:A_not_judged', 'elements:negative_count', 'elements:zero_count',
+                       'elements:zero_everywhere', 'elements:E_last_mention_negative',
+                       'elements:E_last_mention_positive', 'elements:negative_on_surface_species',
+                       'species_order:creation', 'species_order:shuffled', 'species_order:reversed',
                        'sden:min', 'sden:max', 'sden:mean', 'sden:sum', 'mw:on', 'mw:off',
                        'site_objs:shared', 'site_objs:copies', 'build:ctor', 'build:from_string',
                        'x:unspecified', 'T:at_T_mid', 'kw:P', 'site_with_>1_species',
@@ -58,15 +64,24 @@ REQUIRED_CLASSES = (['rx:' + k for k in ('gas', 'ads', 'ads_plain', 'ads_diss', 
                     + ['surf.act:' + m for m in ACT] + ['surf.ads:' + m for m in ACT]
                     + ['gas.act:' + m for m in ACT] + ['EA.act:' + m for m in ACT]
                     + ['EA.ads:' + m for m in ACT])
-REQUIRED_PROBES = ['ChemkinReaction._is_gas_phase', 'ChemkinReaction._get_n_surf', 'ChemkinReaction.get_A',
-                   'ChemkinReaction.get_HoRT_act', 'ChemkinReaction.get_GoRT_act', 'ChemkinReaction.get_H_act',
-                   'ChemkinReaction.get_G_act', 'Reaction.get_E_act', 'Reaction.get_EoRT_act',
-                   '_write_reaction_lines', '_write_column_line', 'Reaction.to_string', 'read_reactions']
-REQUIRED_BRANCHES = ['get_A:ts+entropy', 'get_A:no_ts', 'get_A:ts_no_entropy', 'n_surf=1', 'n_surf>=2']
+# Only the entry points this check calls itself are required to fire.  Probes on helpers and getters
+# behind them (_is_gas_phase, _get_n_surf, get_A, get_*_act, _write_reaction_lines, _write_column_line,
+# to_string) stay installed as telemetry / online invariants: a refactor that stops calling one of them
+# must be decided by the boundary oracles, not turn the run inconclusive.  The classes the probe
+# branches used to stand for (n_surf, TS / entropy situation of A) are derived from the case spec.
+REQUIRED_PROBES = ['write_gas', 'write_surf', 'write_EA', 'write_tube_mole', 'write_T_flow', 'read_reactions']
+REQUIRED_BRANCHES = []
 ASSUMPTIONS = [
     'mechanisms are chemically well formed: element and site balanced, a surface step has surface species on '
     'both sides, phase letters are upper-case G / S (bulk species carry S and are recognised through '
-    'CatSite.bulk_specie as in the bundled example), bulk species names are distinct between sites, '
+    'CatSite.bulk_specie as in the bundled example), bulk species names are distinct between sites; gas species '
+    'may carry a cat_site / n_sites (records made from one table) and stay gas species: n_surf and the effective '
+    'site density count only phase-S non-bulk reactants (A is not judged, only counted, when such a gas reactant '
+    'meets sden_operation sum / mean over several sites or carries a site foreign to the step); element counts '
+    'may be negative (Chemkin electron element E: cation E -1, anion E +1, electron species E) or zero '
+    '(zero-filled columns): ELEMENTS must list every key with a non-zero count in some species exactly once, a '
+    'key that is zero in every species may be listed once or left out; species records in creation, reversed '
+    'or shuffled order; '
     'species names contain no blank + = ! / \' - and do not start with a digit; nasa_species passed to the '
     'writers = all non-transition-state species',
     'model A: kB/h (as the file header documents; no activation-entropy factor), divided by '
@@ -85,6 +100,9 @@ ASSUMPTIONS = [
     'numbers: token must be re-producible by the requested format string and |token - model| <= half a unit '
     'of the last printed place (+ 1e-4 relative for computed quantities: CODATA-2018 constants of '
     'vf/ref/units.py vs. pMuTT\'s table; + 1e-9 for transcribed ones)',
+    'K4 is not judged (counted in evidence.extra) for a file that contains a reaction whose whole left-hand side '
+    'is one character (H=HP+E): the unchanged read_reactions skips such lines (regex wants two characters '
+    'before the delimiter) -- reported as a genuine defect with fix proposal',
     'K4 compares, per reaction, the reactant list and the first len(products) entries of the product list '
     'returned by read_reactions; surplus "products" are reported separately (what=arrhenius_columns) from a '
     'mismatch of the genuine ones (what=mismatch)',
@@ -92,6 +110,8 @@ ASSUMPTIONS = [
     'comment line, write_T_flow(conditions=...) being ignored, AttributeError -> Ea=0 on a species whose getter '
     'raises AttributeError (outside the Nasa-only quantifier)']
 TOL_COMPUTED = 1e-4
+# flip (or run with VERIF_C06_JUDGE_ONE_CHAR=1) once read_reactions accepts a one-character left-hand side
+JUDGE_ONE_CHAR_LHS = os.environ.get('VERIF_C06_JUDGE_ONE_CHAR', '') == '1'
 TOL_COPIED = 1e-9
 KB_H = U.KB / U.H
 UNITS = ['kcal/mol', 'cal/mol', 'kJ/mol', 'J/mol', 'eV']
@@ -265,6 +285,20 @@ def directed(tier):
     if ads:
         s['history'].append({'op': 'sticking', 'rx': ads[0], 'value': 0.0625})
     D.append(s)
+    # 17-19: records from one table (every gas species carries the single site), Eley-Rideal and plain
+    # adsorption steps, ions with the electron element E, zero-filled columns; the three record orders
+    for j, order in enumerate(['creation', 'reversed', 'shuffled']):
+        for t in range(80):
+            rng = random.Random('C06-d17-%d-%d' % (j, t))
+            s = _case(rng, profile='mixed', ts_mode='mixed', n_sites=1, n_rxn=14, max_species=22, carry='table',
+                      zero_fill=['all', None, 'some'][j], species_order=order)
+            ks = {r['kind'] for r in s['mech']['reactions']}
+            if {'er', 'ads_plain', 'ads'} <= ks and any(x['elements'].get('E', 0) < 0 for x in s['mech']['species']
+                                                       if x['role'] == 'ads'):
+                break
+        for c in s['calls']['surf']:
+            c['sden'] = ['min', 'max', 'min'][j]
+        D.append(s)
     # 15: Reactions fed from a one-shot generator, 16: from a tuple
     for j, arg in enumerate(['generator', 'tuple']):
         rng = random.Random('C06-d15-%d' % j)
@@ -415,6 +449,10 @@ class Model:
                 A /= eff ** (n_surf - 1)
         return A, kind
 
+    def n_surf(self, i):
+        """number of reactant molecules that sit on a site (phase S on a CatSite, not the bulk species)"""
+        return int(sum(nu for n, nu in self.rx[i]['reactants'] if self.sp[n]['role'] in ('ads', 'vacant')))
+
     def multi_site(self, i):
         ks = {self.sp[n]['site'] for n, _ in self.rx[i]['reactants'] if self.sp[n]['role'] in ('ads', 'vacant')}
         return len(ks) > 1
@@ -549,16 +587,53 @@ def _arrhenius(ctx, M, c, base, pairs, file):
         if ent:
             # E / H activation method on a step with a transition state: the entropy of activation is in
             # neither A (kB/h by the file's own header and DESIGN K3) nor Ea -- counted, not judged
-            ctx.cls('A:ts_entropy')
             ctx.extra['A_is_kB_over_h_although_TS_and_Ea_is_E_or_H'] = \
                 ctx.extra.get('A_is_kB_over_h_although_TS_and_Ea_is_E_or_H', 0) + 1
+        if kind != 'stick':
+            ctx.cls('A:no_ts' if not has_ts else ('A:ts_G_method' if c['act'][4] == 'G' else 'A:ts_entropy'))
         ms = kind == 'surf' and M.multi_site(i)
         if ms:
             ctx.cls('A:multi_site')
         mA = dict(base, rule='K3', field='A', kind=kind, has_ts=has_ts, multi_site=ms)
         if kind == 'surf':
             mA['sden_op'] = c['sden']
-        _num(ctx, e['A'], A, c['ff'], mA, TOL_COPIED if kind == 'stick' else TOL_COMPUTED, reaction=e['expr'])
+            n_surf = M.n_surf(i)
+            ctx.cls('n_surf:%d' % n_surf if n_surf < 3 else 'n_surf:>=3')
+            mA['n_surf'] = min(n_surf, 3)
+        # gas species whose record carries a catalyst site (cat_site / n_sites set although phase is G)
+        carried_r = [M.sp[n]['carry_site'] for n, _ in r['reactants'] if M.sp[n].get('carry_site') is not None]
+        carried_p = [M.sp[n]['carry_site'] for n, _ in r['products'] if M.sp[n].get('carry_site') is not None]
+        if carried_p:
+            ctx.cls('carry:product')
+        if any(M.sp[n].get('carry_n_sites') for n, _ in r['reactants'] + r['products']):
+            ctx.cls('carry:n_sites')
+        if carried_r and kind == 'stick':
+            ctx.cls('carry:ads_reactant')
+        judged = True
+        if carried_r and kind == 'surf':
+            # The model counts only species that sit on a site (phase S, not bulk), for the exponent and for
+            # the effective density alike.  The unchanged get_A takes the exponent that way (_get_n_surf) but
+            # lets a gas reactant that carries a cat_site into the density list: harmless when that site is
+            # one of the step's own sites and the operation is min / max (or mean on a single-site step) --
+            # judged; with sum, or a foreign site, the written A follows the inconsistent list -- counted as
+            # telemetry, reported as a genuine inconsistency of the unchanged tree, not judged.
+            own = {M.sp[n]['site'] for n, _ in r['reactants'] if M.sp[n]['role'] in ('ads', 'vacant')}
+            judged = all(k in own for k in carried_r) and (c['sden'] in ('min', 'max') or
+                                                            (c['sden'] == 'mean' and len(own) == 1))
+            mA['gas_reactant_carries_site'] = True
+            if judged:
+                ctx.cls('carry:er_reactant')
+            else:
+                ctx.cls('carry:A_not_judged')
+                tele = ctx.extra.setdefault('A_when_gas_reactant_carries_site_and_sum_or_foreign_site', {})
+                try:
+                    same = abs(CK.to_float(e['A']) - A) <= CK.quantum(e['A']) * 1.000001 + 1e-4 * abs(A)
+                except ValueError:
+                    same = False
+                tele['equal_to_model' if same else 'differs_from_model'] = \
+                    tele.get('equal_to_model' if same else 'differs_from_model', 0) + 1
+        if judged:
+            _num(ctx, e['A'], A, c['ff'], mA, TOL_COPIED if kind == 'stick' else TOL_COMPUTED, reaction=e['expr'])
         # beta
         _num(ctx, e['beta'], float(r['beta']), c['ff'], dict(base, rule='K3', field='beta'), TOL_COPIED,
              reaction=e['expr'])
@@ -641,8 +716,25 @@ def check_gas(ctx, M, c, n):
     ctx.check('K1', g['sections'] == ['elements', 'species', 'reactions'], dict(base, field='section', what='order'),
               sections=g['sections'])
     real = [s for s in M.mech['species'] if s['role'] != 'ts']
-    elements = sorted({e for s in real for e in s['elements']})
-    _multiset(ctx, dict(base, field='elements'), g['elements'], elements)
+    # required: every element with a non-zero count (positive or negative) in at least one species handed
+    # to the writer; an element whose count is zero in every species may be listed (once) or left out
+    required = sorted({e for s in real for e, n in s['elements'].items() if n != 0})
+    optional = {e for s in real for e in s['elements']} - set(required)
+    written = [e for e in g['elements'] if e not in optional]
+    _multiset(ctx, dict(base, field='elements'), written, required)
+    for e in optional:
+        ctx.check('K1', g['elements'].count(e) <= 1, dict(base, field='elements', what='duplicate'), entity=e)
+    if optional:
+        ctx.cls('elements:zero_everywhere')
+    if any(n < 0 for s in real for n in s['elements'].values()):
+        ctx.cls('elements:negative_count')
+    if any(n < 0 for s in real if s['role'] == 'ads' for n in s['elements'].values()):
+        ctx.cls('elements:negative_on_surface_species')
+    if any(n == 0 for s in real for n in s['elements'].values()):
+        ctx.cls('elements:zero_count')
+    last_E = [s['elements']['E'] for s in real if s['elements'].get('E', 0) != 0][-1:]
+    if last_E:
+        ctx.cls('elements:E_last_mention_negative' if last_E[0] < 0 else 'elements:E_last_mention_positive')
     _multiset(ctx, dict(base, field='species'), g['species'],
               [s['name'] for s in real if s['role'] in ('gas', 'inert')])
     pairs = _match_reactions(ctx, M, base, g['reactions'], True)
@@ -876,6 +968,21 @@ def check_K4(ctx, M, path, file, text_reactions):
     """pMuTT's own reader on a file pMuTT wrote."""
     from pmutt.io import chemkin as ck
     base = {'file': file, 'rule': 'K4'}
+    one_char = [e for e in text_reactions if len(e['expr'].split('=')[0].rstrip('<')) == 1]
+    if one_char and not JUDGE_ONE_CHAR_LHS:
+        # Unchanged tree: read_reactions recognises a reaction line with '(^[^!].+)(delimiter)', i.e. it wants
+        # two characters before a delimiter, and silently skips 'H=HP+E ...' (unless a minus sign further
+        # right happens to match).  Reported as a genuine reader defect with a one-character fix; files with
+        # such a line are counted here and not judged, so that the rest of K4 stays decidable.
+        tele = ctx.extra.setdefault('K4_files_with_one_character_left_hand_side', {})
+        tele['files'] = tele.get('files', 0) + 1
+        try:
+            got = ck.read_reactions(path)
+            tele['reaction_lines_lost'] = tele.get('reaction_lines_lost', 0) + max(0, len(text_reactions) - len(got[1]))
+        except Exception as ex:                           # noqa
+            tele['raises_' + type(ex).__name__] = tele.get('raises_' + type(ex).__name__, 0) + 1
+        ctx.cls('K4:one_char_lhs_not_judged')
+        return
     out = _call(ctx, 'K4', dict(base, field='read', species_arg=False), ck.read_reactions, path)
     if out is not core.NOVALUE:
         ok = isinstance(out, tuple) and len(out) == 5
@@ -986,6 +1093,7 @@ def run_case(spec, ctx):
     # classes
     kinds = {r['kind'] for r in mech['reactions']}
     ctx.cls(*['rx:' + k for k in kinds])
+    ctx.cls('species_order:' + mech.get('species_order', 'creation'))
     ctx.cls('profile:' + mech['profile'], 'sites:%d' % len(mech['sites']), 'site_objs:' + spec.get('site_objs', 'shared'))
     for r in mech['reactions']:
         ctx.cls('ts:yes' if r['ts'] else 'ts:no', 'build:' + r['build'])
